@@ -1177,14 +1177,17 @@ macro_rules! rel_cam {
             }
         }
         // ---- projections: tan(fov/2) = 2^tj, any aspect in [1e-2, 1e2], far/near up to 2^20
-        let tj: i32 = $r.below(15) as i32 - 7;           // tan(fov/2) = 2^-7 .. 2^7: fov from 0.016 to pi - 0.016
-        let t = (2.0 as $S).powi(tj);
-        let fov = 2.0 * t.atan();
+        let tj0: i32 = $r.below(15) as i32 - 7;          // tan(fov/2) = 2^-7 .. 2^7: fov from 0.016 to pi - 0.016
+        let narrow: i32 = -7 + $r.below(2) as i32;       // and every draw a narrow one (a focal length through 1 - cos(fov) cancels there) ...
+        let wide: i32 = 7 - $r.below(2) as i32;          // ... and a wide one
         let aspect = ((2.0f64).powf(unit_f64($r) * 13.0 - 6.5)) as $S;
         let near = ((2.0f64).powf(unit_f64($r) * 10.0 - 7.0)) as $S;
         let ratio = [3.0f64, 100.0, 32769.0, 1.0e5, 1.0e6, 1.5][$r.below(6) as usize];
         let far = (near as f64 * ratio) as $S;
         let wm = |m: &$M4| -> Value { let c = m.to_cols_array(); Value::Array(c.chunks(4).map(|x| wv(x)).collect()) };
+        for tj in [tj0, narrow, wide] {
+        let t = (2.0 as $S).powi(tj);
+        let fov = 2.0 * t.atan();
         for (name, conv, hand, m) in [
             ("perspective_rh_gl", "gl", "rh", $M4::perspective_rh_gl(fov, aspect, near, far)),
             ("perspective_lh", "zo", "lh", $M4::perspective_lh(fov, aspect, near, far)),
@@ -1196,6 +1199,7 @@ macro_rules! rel_cam {
         ] {
             $o.emit(json!({"k": "rel", "op": "proj", "kind": "persp", "f": $fm, "ty": stringify!($M4), "sp": name, "conv": conv, "hand": hand, "tj": tj,
                 "aspect": w(aspect), "near": w(near), "far": w(far), "m": wm(&m)}));
+        }
         }
         let (l, rr) = { let a = (unit_f64($r) * 20.0 - 10.0) as $S; let b = a + ((2.0f64).powf(unit_f64($r) * 10.0 - 5.0)) as $S; (a, b) };
         let (b, tp) = { let a = (unit_f64($r) * 20.0 - 10.0) as $S; let c = a + ((2.0f64).powf(unit_f64($r) * 10.0 - 5.0)) as $S; (a, c) };
